@@ -48,6 +48,14 @@ def gen(seed, run, tier='quick'):
                     break
             rates[str(j)] = f"{r}/1000"
         mconvs.append({'base': base, 'rates': rates})
+    if rng.random() < 0.3:
+        # twins: two distinct converter objects with identical content
+        # (conversions cannot tell them apart, the registry must)
+        mconvs[rng.randrange(len(mconvs))] = dict(mconvs[0]) \
+            if len(mconvs) > 1 and rng.random() < 0.5 else \
+            dict(mconvs[-1])
+        if len(mconvs) < 4:
+            mconvs.append(dict(mconvs[rng.randrange(len(mconvs))]))
     n_g = rng.choice([2, 3, 3])
     gconvs = []
     for k in range(n_g):
